@@ -60,6 +60,22 @@ Theorem C05_store_fill_buf_never_crashes : forall st r scr,
 Proof. exact bs_fill_buf_safe. Qed.
 Print Assumptions C05_store_fill_buf_never_crashes.
 
+(* ... and for ANY Read that keeps the one promise of std::io::Read (it reports at most as many bytes as
+   the slice it was handed): [read free] is its answer, anything but Ok is an io::Error *)
+Theorem C05_store_fill_any_read_never_crashes : forall st read rfail r0 scr,
+  bs_inv st ->
+  (forall free bs r', read free = Ok (bs, r') -> length bs <= free) ->
+  exists st', sfill_state (bs_fill_core st read rfail r0 scr) = Some st' /\ bs_inv st' /\
+              length (s_buf st') = length (s_buf st) /\ s_owned st' = s_owned st.
+Proof. exact bs_fill_core_safe. Qed.
+Print Assumptions C05_store_fill_any_read_never_crashes.
+
+(* the promise is needed: a Read that reports one byte more than it was handed makes end.add(r) leave the buffer *)
+Example C05_store_lying_read_refuted :
+  bs_fill_core (bs_build [0; 0]%N) (fun free => Ok (repeat 7%N (free + 1), mkrd [] [] 0 0)) (mkrd [] [] 0 0) (mkrd [] [] 0 0) None
+  = SFillCrash 8610%N.
+Proof. vm_compute. reflexivity. Qed.
+
 Theorem C05_store_run_never_crashes : forall buf r ops,
   forallb resolved ops = true ->
   forallb (fun ob => negb (is_crash_obs ob)) (bs_run (bs_build buf) r ops) = true.
